@@ -100,6 +100,10 @@ def fix_case(dialect, templater, style, label, source, rules, extra, want):
             # the original token stream, for whitespace-only / case-only comparisons
             p0 = lnt.parse_string(source, fname="t.sql")
             out["leaves0"] = _leaves(p0.tree) if p0.tree is not None else None
+        if "fixedleaves" in want:
+            # the leaves of a fresh parse of the fixed TEXT (what the next reader of the file sees)
+            pf = lnt.parse_string(fixed, fname="t.sql") if out["changed"] else None
+            out["leaves_fixed"] = (_leaves(pf.tree) if pf.tree is not None else None) if pf is not None else out.get("leaves")
         if "relex" in want and templater == "raw":
             from sqlfluff.core.parser import Lexer
             from sqlfluff.core.templaters.base import TemplatedFile
